@@ -68,6 +68,8 @@ func coqExprs(es []js_ast.Expr) string {
 	return "[" + strings.Join(parts, "; ") + "]"
 }
 
+var refIDHook func(ast.Ref) uint32
+
 // unsupported node kinds panic: the generator only produces modelled kinds
 func coqExpr(x js_ast.Expr) string {
 	switch e := x.Data.(type) {
@@ -96,6 +98,11 @@ func coqExpr(x js_ast.Expr) string {
 	case *js_ast.EArrow:
 		return "(EArrow 0)"
 	case *js_ast.EIdentifier:
+		if refIDHook != nil {
+			// statement cases: identifiers are numbered by name (two parses of the same source); the
+			// side-effect annotations of the node are not part of what is compared
+			return fmt.Sprintf("(EId %d false false)", refIDHook(e.Ref))
+		}
 		return fmt.Sprintf("(EId %d %s %s)", e.Ref.InnerIndex, CBool(e.CanBeRemovedIfUnused), CBool(e.MustKeepDueToWithStmt))
 	case *js_ast.EDot:
 		return fmt.Sprintf("(EDot %s %s %d %s %s)", coqExpr(e.Target), cstr(e.Name), e.OptionalChain, CBool(e.CanBeRemovedIfUnused), CBool(e.IsSymbolInstance))
